@@ -51,8 +51,8 @@ type flow struct {
 }
 
 type evaluator struct {
-	c   *ClusterT
-	ns  map[string]NsT
+	c  *ClusterT
+	ns map[string]NsT
 }
 
 func (e *evaluator) selected(p *PolicyT, pod *PodT) bool {
